@@ -106,7 +106,7 @@ pub fn roundtrips(id: u32, c: char) -> bool {
 }
 
 /// Candidate non-ASCII characters from which per-run alphabets are filtered.
-pub const CANDIDATES: &str = "þï»é¿ÀßøÿŁžšćЖяЇґαωΩאתبيกๆあアカ漢字日本中文한글가힣€™•…ŧĦıİğŞəơưỡ¡©±ÆÐÞ÷ĀēĮņŪ☃😀ÿÄÖÜäöüñçÅ";
+pub const CANDIDATES: &str = "þï»é¿ÀßøÿŁžšćЖяЇґαωΩאתبيกๆあアカ漢字日本中文한글가힣€™•…ŧĦıİğŞəơưỡ¡©±ÆÐÞ÷ĀēĮņŪ☃😀ÿÄÖÜäöüñçÅ\u{fffd}";
 
 /// Non-ASCII characters that round-trip in every page of `ids`.
 pub fn common_chars(ids: &[u32]) -> Vec<char> {
